@@ -305,12 +305,6 @@ class ExtrasMixin:
             if v.kind == "dict" and not r.concrete and r.val is not None:
                 return _fn("any_of_map_" + str(r.val.sort()).replace(" ", ""), r.dom.sort(), r.val.sort(), AnySort)(r.dom, r.val)
             raise E.Unsupported("inject_deep of symbolic container")
-        if isinstance(v, VTuple):
-            f = _fn("any_pair", AnySort, AnySort, AnySort)
-            t = z3.Const("any_unit", AnySort)
-            for x in v.items:
-                t = f(t, self.inject_deep(x))
-            return t
         return self.inject(v)
 
     # ------------------------------------------------------------ specification special forms
